@@ -84,8 +84,8 @@ fn strategy(ctx: &Ctx) -> BoxedStrategy<Case> {
         })
         .prop_map(|(cfg, tree, pre, forget, pairing, edits_a, edits_b, mut prune, js, all_j)| {
             // the overlapping prune is a non-instant one whose keep-delete exceeds any backup here
+            // (early-delete-index stays as generated: without instant-delete it must have no effect)
             prune.instant_delete = false;
-            prune.early_delete_index = false;
             prune.keep_delete_23h = true;
             Case {
                 cfg,
